@@ -141,6 +141,10 @@ def preLookup (cfg : Cfg) (s : Zchd) (k : Nat) : Zchd :=
            ticksUntilEnabled := cfg.ticksWaitEnable,
            inputKeys := sortedInsert k s.inputKeys }
 
+/-- whether the punctuation erasure of the smart space applies to this press -/
+def punctFires (cfg : Cfg) (s : Zchd) (k : Nat) : Bool :=
+  s.smartSpaceState = .sent && cfg.punctuation.contains (puncOf s k)
+
 theorem punctStage_none (cfg : Cfg) (s : Zchd) (k : Nat)
     (hss : s.smartSpaceState = .inactive ∨ cfg.punctuation.contains (puncOf s k) = false) :
     punctStage cfg s k = (s, []) := by
@@ -151,10 +155,39 @@ theorem punctStage_none (cfg : Cfg) (s : Zchd) (k : Nat)
     · simp only [h, Bool.and_false]
   rw [this]; rfl
 
+theorem punctFires_false_iff (cfg : Cfg) (s : Zchd) (k : Nat) :
+    punctFires cfg s k = false ↔
+      (s.smartSpaceState = .inactive ∨ cfg.punctuation.contains (puncOf s k) = false) := by
+  unfold punctFires
+  cases hs : s.smartSpaceState <;> cases hc : cfg.punctuation.contains (puncOf s k) <;> simp [hs, hc]
+
+/-- the state the punctuation erasure leaves -/
+def punctState (s : Zchd) : Zchd :=
+  { s with charsToDelete := if s.inputKeys.isEmpty then s.charsToDelete else s.charsToDelete - 1,
+           priorActivationOutputCount :=
+             if s.prioritized.isSome then s.priorActivationOutputCount - 1 else s.priorActivationOutputCount }
+
+theorem punctStage_fires (cfg : Cfg) (s : Zchd) (k : Nat) (h : punctFires cfg s k = true) :
+    punctStage cfg s k = (punctState s, bspc) := by
+  unfold punctStage punctState
+  unfold punctFires at h
+  rw [if_pos h]
+  cases hi : s.inputKeys.isEmpty <;> cases hp : s.prioritized.isSome <;> simp [hi, hp]
+
 theorem enterKey_eq (cfg : Cfg) (s : Zchd) (k : Nat) :
     enterKey cfg { s with smartSpaceState := .inactive } k = preLookup cfg s k := by
   unfold enterKey preLookup Zchd.activateChordDeadline Zchd.stateChange
   by_cases h : s.ticksUntilDisable = 0 <;> simp [h]
+
+theorem findChordK_none (cfg : Cfg) (keys : Key) :
+    findChordK cfg none keys =
+      match lookupLevel cfg.dict [] keys with
+      | .hasValue a => .top a
+      | .isSubset => .subset
+      | .neither => .neither := by
+  unfold findChordK
+  simp only
+  cases lookupLevel cfg.dict [] keys <;> simp
 
 theorem findChord_top (cfg : Cfg) (s : Zchd) (hpr : s.prioritized = none) :
     findChord cfg s =
@@ -163,10 +196,15 @@ theorem findChord_top (cfg : Cfg) (s : Zchd) (hpr : s.prioritized = none) :
       | .isSubset => .subset
       | .neither => .neither := by
   unfold findChord
-  simp only [hpr]
-  cases lookupLevel cfg.dict [] s.inputKeys <;> rfl
+  rw [hpr, findChordK_none]
 
-/-- the shared beginning of the two press lemmas -/
+/-- the activation a lookup result stands for: (map it was found in, output, prioritised?) -/
+def Found.act : Found → Option (Path × List ZchOut × Bool)
+  | .prio p a => some (p, a, true)
+  | .top a => some ([], a, false)
+  | _ => none
+
+/-- The press of a key that is not ignored, while enabled, without the punctuation erasure. -/
 theorem press_enabled (cfg : Cfg) (s : Zchd) (k : Nat)
     (hne : ssmIsEmpty (levelSsm cfg.dict []) = false)
     (hk : isZippyIgnored k = false)
@@ -188,29 +226,57 @@ theorem press_enabled (cfg : Cfg) (s : Zchd) (k : Nat)
   rw [if_neg hen', enterKey_eq]
   cases findChord cfg (preLookup cfg s k) <;> rfl
 
+/-- With the punctuation erasure: the same press from the state the erasure leaves, after the
+backspace. -/
+theorem press_punct (cfg : Cfg) (s : Zchd) (k : Nat)
+    (hne : ssmIsEmpty (levelSsm cfg.dict []) = false) (hk : isZippyIgnored k = false)
+    (h : punctFires cfg s k = true) :
+    zchPressKey cfg s k =
+      ((zchPressKey cfg { punctState s with smartSpaceState := .inactive } k).1,
+       bspc ++ (zchPressKey cfg { punctState s with smartSpaceState := .inactive } k).2) := by
+  obtain ⟨h1, h2, h3, _, _⟩ := not_ignored_ne hk
+  have hnone : punctStage cfg { punctState s with smartSpaceState := .inactive } k =
+      ({ punctState s with smartSpaceState := .inactive }, []) := punctStage_none _ _ _ (Or.inl rfl)
+  unfold zchPressKey
+  simp only [hne, h1, h2, h3, hk, if_false, Bool.false_eq_true, punctStage_fires cfg s k h, hnone,
+    List.nil_append]
+  split
+  · simp
+  · cases findChord cfg (enterKey cfg { punctState s with smartSpaceState := SmartSpaceState.inactive } k) <;> simp
+
 theorem press_subset (cfg : Cfg) (s : Zchd) (k : Nat)
     (hne : ssmIsEmpty (levelSsm cfg.dict []) = false)
     (hk : isZippyIgnored k = false)
-    (hen : s.enabledState = .enabled) (hpr : s.prioritized = none)
+    (hen : s.enabledState = .enabled)
     (hss : s.smartSpaceState = .inactive ∨ cfg.punctuation.contains (puncOf s k) = false)
-    (hl : lookupLevel cfg.dict [] (sortedInsert k s.inputKeys) = .isSubset) :
+    (hfc : findChordK cfg s.prioritized (sortedInsert k s.inputKeys) = .subset) :
     zchPressKey cfg s k =
       ({ preLookup cfg s k with lastPress := .notChord, charsToDelete := s.charsToDelete + 1 },
        [.down k]) := by
-  rw [press_enabled cfg s k hne hk hen hss, findChord_top _ _ (by simp [preLookup, hpr])]
-  have : lookupLevel cfg.dict [] (preLookup cfg s k).inputKeys = .isSubset := by simpa [preLookup] using hl
+  rw [press_enabled cfg s k hne hk hen hss]
+  have : findChord cfg (preLookup cfg s k) = .subset := by simpa [findChord, preLookup] using hfc
   rw [this]
   rfl
 
-theorem press_full (cfg : Cfg) (s : Zchd) (k : Nat) (out : List ZchOut)
+theorem press_found (cfg : Cfg) (s : Zchd) (k : Nat) (out : List ZchOut) (ctx : Path) (isPrio : Bool)
     (hne : ssmIsEmpty (levelSsm cfg.dict []) = false)
     (hk : isZippyIgnored k = false)
-    (hen : s.enabledState = .enabled) (hpr : s.prioritized = none)
+    (hen : s.enabledState = .enabled)
     (hss : s.smartSpaceState = .inactive ∨ cfg.punctuation.contains (puncOf s k) = false)
-    (hl : lookupLevel cfg.dict [] (sortedInsert k s.inputKeys) = .hasValue out) :
-    zchPressKey cfg s k = activate cfg (preLookup cfg s k) k out [] false := by
-  rw [press_enabled cfg s k hne hk hen hss, findChord_top _ _ (by simp [preLookup, hpr])]
-  have : lookupLevel cfg.dict [] (preLookup cfg s k).inputKeys = .hasValue out := by simpa [preLookup] using hl
+    (hfc : (findChordK cfg s.prioritized (sortedInsert k s.inputKeys)).act = some (ctx, out, isPrio)) :
+    zchPressKey cfg s k = activate cfg (preLookup cfg s k) k out ctx isPrio := by
+  rw [press_enabled cfg s k hne hk hen hss]
+  have : findChord cfg (preLookup cfg s k) = findChordK cfg s.prioritized (sortedInsert k s.inputKeys) := by
+    simp [findChord, preLookup]
   rw [this]
+  cases hf : findChordK cfg s.prioritized (sortedInsert k s.inputKeys) with
+  | prio p a =>
+    rw [hf] at hfc; simp only [Found.act, Option.some.injEq, Prod.mk.injEq] at hfc
+    obtain ⟨rfl, rfl, rfl⟩ := hfc; rfl
+  | top a =>
+    rw [hf] at hfc; simp only [Found.act, Option.some.injEq, Prod.mk.injEq] at hfc
+    obtain ⟨rfl, rfl, rfl⟩ := hfc; rfl
+  | subset => rw [hf] at hfc; simp [Found.act] at hfc
+  | neither => rw [hf] at hfc; simp [Found.act] at hfc
 
 end KVerif.Zippy
